@@ -65,7 +65,13 @@ let io_cases () =
        | Some b ->
          let f x = if x then "1" else "0" in
          print_string (hex_of_bytes s'.log ^ " " ^ res_str r ^ " " ^ hex_of_bytes b ^ " "
-                       ^ f (buffer_eq b b) ^ f (buffer_eq b (b @ [n_of_int 120])) ^ f (buffer_eq b b) ^ "\n"))
+                       ^ f (buffer_eq b b) ^ f (buffer_eq b (b @ [n_of_int 120])) ^ f (buffer_eq b b)
+                       ^ (let cr = n_of_int 13 and lf = n_of_int 10 in
+                          let rec drop_cr_before_lf l = match l with x :: (y :: _ as r) when x = cr && y = lf -> drop_cr_before_lf r | x :: r -> x :: drop_cr_before_lf r | [] -> [] in
+                          let rec add_cr l = match l with x :: r when x = lf -> cr :: lf :: add_cr r | x :: r -> x :: add_cr r | [] -> [] in
+                          let strip_last l = match List.rev l with x :: r when x = cr -> List.rev r | _ -> l in
+                          f (List.exists (fun v -> v <> b && buffer_eq b v) [drop_cr_before_lf b; strip_last b; b @ [cr]; add_cr b]))
+                       ^ "\n"))
     | _ -> print_string "BADCASE\n")
 
 (* statics: <mode n|3|h> <header hex> ops...   ops: F:path:content A:path:url D:path:data
